@@ -22,9 +22,11 @@ import (
 	"verifharness/internal/vh"
 )
 
-var gateCases = [2]int{8, 48} // quick, thorough
+var gateCases = [2]int{16, 96} // quick, thorough
 
-const gatePoint = "ads.initConnection.beforeAddCon"
+// The two windows: before the connection is registered (a push issued now does not see it), and after it is registered
+// but before its state is computed (a push issued now is queued for it and handled after its first requests).
+var gatePoints = []string{"ads.initConnection.beforeAddCon", "ads.initializeProxy.start"}
 
 func runGateReconnects(c *vh.Ctx) {
 	if !stratumC.enabled() {
@@ -87,6 +89,8 @@ func gateReconnectCase(c *vh.Ctx, i int) {
 	if !delta && !proxies[pi].hasSotw() {
 		delta = true
 	}
+	gatePoint := gatePoints[(i/(2*len(proxies)))%len(gatePoints)]
+	registered := gatePoint == gatePoints[1]
 	reconnect := r.Intn(3) > 0 // else: first connection of the proxy
 	stale := reconnect && r.Intn(2) == 0
 	cl := newClient(proxies[pi], delta, "/gate")
@@ -100,6 +104,20 @@ func gateReconnectCase(c *vh.Ctx, i int) {
 		cl.Disconnect(r.Intn(2) == 0)
 		if !quiesce(cur) {
 			c.Inconclusive("cut did not quiesce")
+			return
+		}
+	}
+	if registered {
+		// Proxies of one spec share XDS cache keys. Let the gated client be the only one of its kind, so that what it
+		// is answered is generated for it (otherwise the long-lived clients of the same proxy, which are served first,
+		// have filled the cache with entries of the new snapshot).
+		for _, x := range []*envoyclient.Client{w.sotw[pi], w.delta[pi]} {
+			if x != nil {
+				x.Disconnect(false)
+			}
+		}
+		if !quiesce(cur) {
+			c.Inconclusive("long-lived clients of the proxy did not leave")
 			return
 		}
 	}
@@ -134,9 +152,45 @@ func gateReconnectCase(c *vh.Ctx, i int) {
 	if len(b) == 0 {
 		b = g.changeSet("")
 	}
-	if !apply(b) {
-		c.Inconclusive("batch pushed during the gate did not quiesce")
-		return
+	if !registered {
+		if !apply(b) {
+			c.Inconclusive("batch pushed during the gate did not quiesce")
+			return
+		}
+	} else {
+		// The connection is registered: the push is queued for it and cannot be handed over before initialization is
+		// complete, so the server does not come to rest. Wait until the change is committed, every other connection
+		// has been served and only the parked one is left in the push queue (watchdog, not a verdict).
+		var ok []op
+		for _, o := range b {
+			if g.valid(o) {
+				ok = append(ok, o)
+			}
+		}
+		hist = append(hist, ok)
+		w.hist = hist
+		w.applyBatch(cur, ok)
+		w.applied = len(hist)
+		c.Count("batches", 1)
+		ds := cur.srv.Discovery
+		held := false
+		for deadline := time.Now().Add(30 * time.Second); time.Now().Before(deadline); time.Sleep(2 * time.Millisecond) {
+			pend, proc := ds.PushQueueStateForVerif()
+			if ds.InboundUpdates.Load() == ds.CommittedUpdates.Load() && pend == 0 && proc == 1 {
+				// twice in a row, a debounce period apart
+				time.Sleep(debounce + 10*time.Millisecond)
+				pend, proc = ds.PushQueueStateForVerif()
+				if ds.InboundUpdates.Load() == ds.CommittedUpdates.Load() && pend == 0 && proc == 1 {
+					held = true
+					break
+				}
+			}
+		}
+		if !held {
+			c.Inconclusive("push for the parked connection was not left alone in the queue")
+			return
+		}
+		c.Count("gate_push_held_for_parked_connection", 1)
 	}
 	released = true
 	close(release)
@@ -193,8 +247,8 @@ func gateReconnectCase(c *vh.Ctx, i int) {
 	if reconnect {
 		kind = "reconnect"
 	}
-	c.SetAdd("scenario_kinds", "gate:"+protoOf(cl)+":"+kind)
-	c.Nontrivial(vh.Hash("reconnect-gate", histHash(hist), proxies[pi].name, protoOf(cl), kind))
+	c.SetAdd("scenario_kinds", "gate:"+protoOf(cl)+":"+kind+":"+gatePoint)
+	c.Nontrivial(vh.Hash("reconnect-gate", histHash(hist), proxies[pi].name, protoOf(cl), kind, gatePoint))
 	if len(diffs) > 0 {
 		types := map[string]bool{}
 		for _, d := range diffs {
@@ -206,10 +260,15 @@ func gateReconnectCase(c *vh.Ctx, i int) {
 				txt = append(txt, d.String())
 			}
 		}
-		c.Violation("c05:gate:pushed-while-connection-between-context-read-and-registration:"+strings.Join(sortedKeysOf(types), "+"),
-			fmt.Sprintf("%s %s of %s parked between the push-context read and addCon while %s was pushed to completion: after release and quiescence it differs from a fresh client of the same proxy on the same server in %d resources: %v",
+		c.Violation(gateKey(registered)+strings.Join(sortedKeysOf(types), "+"),
+			fmt.Sprintf("%s %s of %s parked at "+gatePoint+" while %s was pushed: after release and quiescence it differs from a fresh client of the same proxy on the same server in %d resources: %v",
 				protoOf(cl), kind, proxies[pi].name, kindsOf(b), len(diffs), txt),
 			map[string]any{"history": histText(hist, len(hist)), "proxy": proxies[pi].name, "protocol": protoOf(cl), "kind": kind})
+	}
+	// the same-server twin shares the server's XDS cache with the gated client; the fresh control plane does not
+	w.scenInfo = map[string]string{cl.Name: fmt.Sprintf("gate:%s:%s(%s) at %s", protoOf(cl), kind, proxies[pi].name, gatePoint)}
+	if ncmp, ok := w.checkAgainstFresh(cur, []*envoyclient.Client{cl}, []int{pi}, "c05", fmt.Sprintf("reconnect-gate/%d end of history, gate=%s", i, gatePoint)); ok {
+		c.Count("resources_compared", ncmp)
 	}
 	for _, v := range cl.ViolationsCopy() {
 		c.Violation("c05:delta-protocol-sanity", cl.Name+": "+v, nil)
@@ -220,4 +279,11 @@ func gateReconnectCase(c *vh.Ctx, i int) {
 	if i < 1 {
 		c.Sample(map[string]any{"family": "reconnect-gate", "history": histText(hist, len(hist)), "proxy": proxies[pi].name, "protocol": protoOf(cl), "kind": kind})
 	}
+}
+
+func gateKey(registered bool) string {
+	if registered {
+		return "c05:gate:pushed-while-registered-connection-not-yet-initialised:"
+	}
+	return "c05:gate:pushed-while-connection-between-context-read-and-registration:"
 }
